@@ -335,6 +335,19 @@ Proof.
   - intros i Hi. unfold powers_of. rewrite index_of_nth by assumption. reflexivity.
 Qed.
 
+(* symbols=None: every free symbol is perturbative, in the iteration order of the set (whatever it
+   is): index i counts the i-th symbol of THAT order.  A single Symbol is the one-element list. *)
+Theorem default_symbols_order (free_order : list nat) (Q : npoly W) n :
+  NoDup free_order ->
+  sympy_named_series W [] free_order Q n =
+    (if vzerob W (Q (powers_of free_order n)) then None else Some (EV n (Q (powers_of free_order n)))) /\
+  forall i, i < length free_order -> powers_of free_order n (nth i free_order 0) = nth i n 0.
+Proof.
+  intro Hnd. split.
+  - unfold sympy_named_series. cbn [resolve_symbols]. rewrite sympy_to_series_spec. reflexivity.
+  - intros i Hi. unfold powers_of. rewrite index_of_nth by assumption. reflexivity.
+Qed.
+
 (* ------------------------------------------------------------------ *)
 (* what each container denotes, and the normal form *)
 
